@@ -15,7 +15,7 @@ def row(d, m):
         d, cut(m.get("breaks", ""), 260), cut(m.get("needs_to_manifest", ""), 220), c.get("test_suite_with_mutant", "?"),
         "PASS" if c.get("demo_on_original_exit") == 0 else "exit %s" % c.get("demo_on_original_exit"),
         "FAIL" if c.get("demo_on_mutant_exit") not in (0, None) else "exit %s" % c.get("demo_on_mutant_exit"),
-        "DETECTED" if cr.get("detected") else "MISSED", cr.get("seconds", "?"), ", ".join(s.replace("|", "/") for s in cr.get("signatures", [])[:3]))
+        "DETECTED" if cr.get("detected") else ("not a violation of the property as stated (see meta.json)" if m.get("not_a_violation") else "MISSED"), cr.get("seconds", "?"), ", ".join(s.replace("|", "/") for s in cr.get("signatures", [])[:3]))
 
 
 def main():
@@ -29,7 +29,7 @@ def main():
            "Every row was then confirmed here (`tools/seeded.sh <ID>`): the patch applies to a clean tree, the repository's unedited test suite",
            "passes with it, the demonstration passes without it and fails with it, and the property's check is run against a scratch copy",
            "carrying the patch (`VERIF_REPO=<copy>`; /repo itself is never modified). Verdicts are those of the FINAL check (after any strengthening", "listed below).", ""]
-    total = det = 0
+    total = det = eqv = 0
     for rnd in sorted(rounds):
         out += ["## Round %s" % rnd, "", "| property | change | needs to manifest | test suite with it | demo orig/mutant | check verdict (quick tier) | signatures |", "|---|---|---|---|---|---|---|"]
         for d in rounds[rnd]:
@@ -37,6 +37,7 @@ def main():
             out.append(row(d, m))
             total += 1
             det += 1 if m.get("check_result", {}).get("detected") else 0
+            eqv = eqv + (1 if (m.get("not_a_violation") and not m.get("check_result", {}).get("detected")) else 0)
         out.append("")
     out += ["## Checks strengthened because of a miss", ""]
     for n in notes["strengthened"]:
@@ -44,7 +45,7 @@ def main():
     out += ["", "## By-products", ""]
     for n in notes.get("byproducts", []):
         out.append("* %s" % n)
-    out += ["", "After strengthening, %d of %d changes are reported as VIOLATION by the quick tier of their property's check, and every check still exits 0 on the unchanged tree." % (det, total), ""]
+    out += ["", "After strengthening, %d of %d changes are reported as VIOLATION by the quick tier of their property's check, %d more do not violate the property as stated, and every check still exits 0 on the unchanged tree." % (det, total, eqv), ""]
     open(os.path.join(ROOT, "RESULTS.md"), "w").write("\n".join(out))
     print("RESULTS.md: %d/%d detected" % (det, total))
 
